@@ -107,9 +107,17 @@ Theorem C09_nil_argument_gives_nil : forall e zf U pe fuel tn tp recv,
 Proof. exact eval_from_nil. Qed.
 Print Assumptions C09_nil_argument_gives_nil.
 
-(* ---- FromX first resets its receiver (`*s = S{}`, or `*s = *NewS(...)`): the
-   result never depends on the receiver's previous CONTENT ... *)
-Theorem C09_receiver_content_irrelevant : forall e zf U pe fuel tn recv recv' arg,
+(* ---- "FromX on a non-nil receiver first resets it".  The model threads the
+   receiver: FromX starts from the receiver's previous content unless the plan
+   resets ([pl_reset]: the `*s = S{}` / `*s = *NewS(...)` the template prints
+   unconditionally, so `analyse` sets it).  For every plan that resets, the
+   result does not depend on the receiver's previous CONTENT ... (with a
+   constructor the arguments are evaluated before the reset, on the old
+   receiver; a mapper method selected through a pointer-embedded mapper then
+   looks at the old content, hence the side condition) *)
+Theorem C09_receiver_content_irrelevant : forall e zf U pe fuel tn tp recv recv' arg,
+  find_plans pe tn = Some tp -> pl_reset (tp_from tp) = true ->
+  pl_ctor (tp_from tp) = None \/ tp_mapper_hop tp = None ->
   (recv = VNil <-> recv' = VNil) ->
   eval_from e zf U pe fuel tn recv arg = eval_from e zf U pe fuel tn recv' arg.
 Proof. exact eval_from_receiver. Qed.
@@ -118,10 +126,47 @@ Print Assumptions C09_receiver_content_irrelevant.
 (* ... and for a source type without constructor (every plain struct; the class of
    C09_no_panic_from) a nil receiver behaves like any other *)
 Theorem C09_receiver_irrelevant : forall e zf U pe fuel tn tp recv recv' arg,
-  find_plans pe tn = Some tp -> pl_ctor (tp_from tp) = None ->
+  find_plans pe tn = Some tp -> pl_reset (tp_from tp) = true -> pl_ctor (tp_from tp) = None ->
   eval_from e zf U pe fuel tn recv arg = eval_from e zf U pe fuel tn recv' arg.
 Proof. exact eval_from_receiver_plain. Qed.
 Print Assumptions C09_receiver_irrelevant.
+
+(* every plan of the analysis resets *)
+Theorem C09_analysis_resets : forall sigma jb a, analyse sigma jb = Some a -> pl_reset (a_from a) = true.
+Proof.
+  intros sigma jb a H. unfold analyse in H. destruct (prepare jb); [|discriminate]. inversion H. reflexivity.
+Qed.
+Print Assumptions C09_analysis_resets.
+
+(* the flag matters: the FromX plan of ex2 without the reset (and without the
+   statement for Name) keeps the receiver's previous Name, with it it does not *)
+Theorem C09_reset_is_needed :
+  let pe := map no_reset (pe_of ex2) in
+  let run r := eval_from (ps_env ex2) (ps_fuel ex2) (usem_of ex2) pe run_fuel "T" r (VPtr ex2_v) in
+  (exists s, run (VPtr ex2_dirty) = Ok (VPtr s) /\ get_path s ["Name"] = Ok (VStr "previous"))
+  /\ (exists s, run VNil = Ok (VPtr s) /\ get_path s ["Name"] = Ok (VStr ""))
+  /\ run (VPtr ex2_dirty) <> run VNil.
+Proof. exact ex2_reset_matters. Qed.
+Print Assumptions C09_reset_is_needed.
+
+(* ---- a mapper type embedded BY POINTER (`type T struct{ *Mapper; ... }`, accepted
+   by loadTypeMapperPkg) with value-receiver methods: `t.F(x)` dereferences
+   t.Mapper.  FromX has just set it to nil (its own reset), so FromX panics for
+   EVERY receiver at the first field mapped by a mapper method; ToX panics when
+   the receiver's Mapper is nil.  Open finding K_map_mapper_ptr_embedded (found by
+   the independent review; replayed every run).  The class is outside gen_guard
+   (plain_gen) and pair_guard (strategies_ok), and the safety check rejects it. *)
+Theorem C09_refuted_K_map_mapper_ptr_embedded :
+  run_from ex9 VNil (VPtr ex9_d) = Panic
+  /\ run_from ex9 (VPtr ex9_dirty) (VPtr ex9_d) = Panic
+  /\ run_to ex9 (VPtr ex9_v_nil) = Panic
+  /\ (exists d, run_to ex9 (VPtr ex9_v) = Ok (VPtr d))
+  /\ has_ty (ps_env ex9) (VPtr ex9_v_nil) (TPtr (TNamed PSrc "T"))
+  /\ has_ty (ps_env ex9) (VPtr ex9_d) (TPtr (TNamed PDst "T"))
+  /\ plans_safe (ps_env ex9) (ps_fuel ex9) (pe_of ex9) = false
+  /\ pair_guard (ps_env ex9) (ps_fuel ex9) (ps_jobs ex9) = false.
+Proof. exact ex9_mapper_ptr. Qed.
+Print Assumptions C09_refuted_K_map_mapper_ptr_embedded.
 
 (* With a constructor whose argument goes through a mapper method, FromX on a NIL
    receiver panics: `s.F(x)` is evaluated before `s` is replaced, and selecting the
